@@ -125,7 +125,46 @@ static void large(Harness &H, size_t n) {
   }
 }
 
+// evaluation after an in-place replacement of the data: "every spline" includes one whose window and coefficients
+// were just replaced by the converting assignment, a same-order assignment or an in-place update, after it had
+// been evaluated; the first abscissa afterwards lies in the interval evaluated before
+static void replaced_cases(Harness &H) {
+  size_t n = 5;
+  auto pts = grid_family("nonuni", n);
+  Grid<S> g = mkgrid<S>(pts);
+  for (Win a : windows(n))
+    for (Win b : windows(n)) {
+      if (!a.nint() || !b.nint()) continue;
+      for (size_t j = std::max(a.s, b.s); j + 1 < std::min(a.e, b.e); j++)   // common interval j
+        for (int how = 0; how < 3; how++) {
+          if (!H.take()) continue;
+          static const char *hn[] = {"converting-assignment", "same-order-assignment", "in-place-sum"};
+          H.begin(std::string("nonuni5;replaced;") + hn[how] + ";" + wstr(a) + ";" + wstr(b) + ";interval" + std::to_string(j));
+          auto s = mkspline_p<S, 2>(g, a, a.nint() * 3 + 1);
+          mpq_class x0 = (pts[j] + 2 * pts[j + 1]) / 3;
+          (void)s(mk<S>(x0));
+          RefPP ex;
+          if (how == 0) { auto lo = mkspline_p<S, 1>(g, b, b.nint() * 2 + 2); s = lo; ex = alpha(lo); }
+          else if (how == 1) { auto o2 = mkspline_p<S, 2>(g, b, b.nint() * 3 + 2); s = o2; ex = alpha(o2); }
+          else { auto o2 = mkspline_p<S, 2>(g, b, b.nint() * 3 + 2); RefPP before = alpha(s); s += o2; ex = radd(before, alpha(o2)); }
+          std::vector<mpq_class> xs = {x0, (pts[j] + pts[j + 1]) / 2};
+          for (size_t i = 0; i + 1 < n; i++) { xs.push_back((pts[i] + pts[i + 1]) / 2); xs.push_back((3 * pts[i] + pts[i + 1]) / 4); }
+          for (auto &x : xs) {
+            size_t iv = 0;
+            while (iv + 2 < n && x > pts[iv + 1]) iv++;
+            mpq_class want = peval(ex.get(iv), x), got = val(s(mk<S>(x)));
+            H.count("point_evaluations");
+            if (got != want) { H.fail("eval-after-replacement", std::string("after ") + hn[how] + " the spline evaluates to " + got.get_str() + " at x = " + x.get_str() + ", the stored polynomial gives " + want.get_str()); break; }
+          }
+          H.cls("replaced");
+          H.nontriv();
+          H.end();
+        }
+    }
+}
+
 static void run(Harness &H) {
+  replaced_cases(H);
   for (size_t n : {17, 32, 33, 34, 35, 64, 65, 66, 100, 129}) {
     if (!H.thorough() && n > 66) continue;
     large<0>(H, n);
